@@ -175,6 +175,9 @@ impl GenCfg {
             "C05" => {
                 set(&mut w, K::Insert, 50);
                 p_tomb = *rng.pick(&[5, 15, 40]);
+                // a node whose slot was retired at its removal is a tombstone for good
+                set(&mut w, K::CycleSlot, 2);
+                p_boundary = *rng.pick(&[0, 0, 0, 0, 0, 0, 0, 25]);
                 for r in [Rel::Same, Rel::BParent, Rel::BAncestor, Rel::BFirstChild, Rel::BLastChild, Rel::BNext, Rel::BPrev] {
                     rel_w[rel_index(r)] = 8;
                 }
@@ -233,6 +236,8 @@ impl GenCfg {
                 set(&mut w, K::AppendValue, 14);
                 set(&mut w, K::ObsTraverse, 2);
                 p_tomb = *rng.pick(&[15, 40, 60]);
+                set(&mut w, K::CycleSlot, 2);
+                p_boundary = *rng.pick(&[0, 0, 0, 0, 0, 0, 0, 25]);
             }
             "C13" => {
                 twin = true;
